@@ -1026,6 +1026,92 @@ func (e *env) secureClient(seed uint64, idx int, mode ua.MessageSecurityMode) {
 	}
 }
 
+// forcedGated: a request is issued while a renewal is waiting for its (held) OPN response. It has to wait at the
+// gate and must only then pick the channel instance to send with — so everything on the wire is consecutively
+// numbered. (Unlike the stale-counter finding the request starts AFTER the renewal closed the gate: no offence
+// here is attributable to that finding.)
+func (e *env) forcedGated() {
+	s := e.open("forced-request-during-held-renewal", 600, 60*time.Second, false, func(*h.PeerChunk) bool { return false })
+	if s == nil {
+		return
+	}
+	defer s.stop()
+	gate := s.sc.VerifReqLocker()
+	s.sc.SendRequestWithTimeout(context.Background(), small(1), nil, 60*time.Second, nil)
+	var panicked atomic.Value
+	r1 := make(chan error, 1)
+	go func() { r1 <- renewRecover(s.sc, &panicked) }()
+	for dl := time.Now().Add(60 * time.Second); len(s.p.opnRequests()) < 1; {
+		if time.Now().After(dl) {
+			e.blocked(s.name + ": OPN request not seen")
+			return
+		}
+		time.Sleep(time.Millisecond)
+	}
+	n0 := len(s.ctl.Events())
+	sd := make(chan error, 1)
+	go func() {
+		sd <- s.sc.SendRequestWithTimeout(context.Background(), bigReq(2, 2), nil, 60*time.Second, nil)
+	}()
+	if s.ctl.WaitEvent(60*time.Second, func(ev *h.SendEv) bool { return ev.Name == "cl.block" && ev.Arg(0) == gate && ev.I >= n0 }) == nil {
+		e.blocked(s.name + ": the request did not wait at the gate although a renewal is in progress")
+		return
+	}
+	s.p.reply(s.p.opnRequests()[0])
+	select {
+	case err := <-r1:
+		if err != nil {
+			e.blocked(s.name + ": renewal failed: " + err.Error())
+			return
+		}
+	case <-time.After(60 * time.Second):
+		e.blocked(s.name + ": renewal did not return")
+		return
+	}
+	select {
+	case err := <-sd:
+		if err != nil {
+			e.blocked(s.name + ": the request issued during the renewal failed: " + err.Error())
+			return
+		}
+	case <-time.After(60 * time.Second):
+		e.blocked(s.name + ": the request issued during the renewal did not return")
+		return
+	}
+	s.sc.SendRequestWithTimeout(context.Background(), small(3), nil, 60*time.Second, nil)
+	s.p.waitWire(5, 60*time.Second)
+	evs := s.ctl.Events()
+	uasc.VerifSetHook(nil)
+	e.r.Hit("scenario:forced-request-during-held-renewal")
+	wire, answered := s.p.snapshot()
+	var ws []string
+	for _, c := range wire {
+		ws = append(ws, c.String())
+	}
+	if d := h.CheckWireT(wire, nil, nil, answered, initTok); !d.OK {
+		e.r.Fail(s.name, "", d.Detail+"; wire: "+strings.Join(ws, " | "))
+	} else {
+		e.r.Hit("gated-request:wire-consecutive")
+	}
+	// model
+	labels, _, _, _ := h.SeqLabelsT(evs, gate)
+	e.r.Count(s.name+" "+strings.Join(labels, ";"), true)
+	e.r.Sample(s.name + ": " + strings.Join(ws, " | "))
+	if e.d != nil {
+		e.d.Ask(fmt.Sprintf("reset %d %d", s.base, initTok))
+		for i, l := range labels {
+			if a := e.d.Ask("lts " + l); a != "ok" {
+				e.r.Disagree(s.name, fmt.Sprintf("%s at step %d `%s` of %s", a, i, l, strings.Join(labels, ";")), "step taken by the implementation")
+				return
+			}
+		}
+		e.r.TracesValidated++
+		if a := e.d.Ask("linked"); a != "true" {
+			e.r.Disagree(s.name+" linked", a, "true")
+		}
+	}
+}
+
 // forcedAbortMid: the context of a three-chunk request ends after its second chunk: the message stays
 // unfinished, the numbers drawn so far are all on the wire and the next message continues them.
 func (e *env) forcedAbortMid() {
@@ -1115,9 +1201,7 @@ func (e *env) blocked(what string) {
 // hasNew: an unclassified oracle failure or a model disagreement has been recorded — the verdict of the run is
 // settled, the remaining (real-time) scenarios are skipped so that the failing input is reported quickly.
 func (e *env) hasNew() bool {
-	if len(e.r.Disagreements) > 0 {
-		return true
-	}
+	// (a model disagreement alone does not stop the run: the later scenarios may still produce the concrete failing input)
 	for _, f := range e.r.OracleFailures {
 		if f.Sig == "" {
 			return true
@@ -1149,6 +1233,8 @@ func main() {
 			e.forcedFailedRenewal()
 		case strings.HasPrefix(o.Replay, "forced-close"):
 			e.forcedClose()
+		case strings.HasPrefix(o.Replay, "forced-request-during"):
+			e.forcedGated()
 		case strings.HasPrefix(o.Replay, "forced-overlapping"):
 			e.forcedOverlap()
 		case strings.HasPrefix(o.Replay, "forced-abort-mid"):
@@ -1174,6 +1260,9 @@ func main() {
 	}
 	if r.InfraError == "" && !e.hasNew() {
 		e.forcedAbortMid()
+	}
+	if r.InfraError == "" && !e.hasNew() {
+		e.forcedGated()
 	}
 	if r.InfraError == "" && !e.hasNew() {
 		e.forcedOverlap()
@@ -1205,7 +1294,7 @@ func main() {
 	}
 	for _, b := range []string{"scenario:secure-mode-2", "scenario:secure-mode-3", "label:spawn", "label:gate", "label:getActive", "label:pendAdd", "label:respGetActive", "label:lockInst", "label:newMsg", "label:write",
 		"label:abort", "label:unlockInst", "label:pendDone", "label:rLock", "label:rWaitBegin", "label:rWaitDone", "label:rLockOld", "label:rCopy", "label:rSendOPN",
-		"label:rInstall", "label:rFail", "label:rUnlockOld", "label:rUnlock", "guard:inside", "guard:outside", "multi-chunk-message", "counter-near-wrap", "message-abandoned-mid-way", "precancelled-send-draws-no-number", "scenario:forced-overlapping-renewals", "close-during-renewal:stale-number"} {
+		"label:rInstall", "label:rFail", "label:rUnlockOld", "label:rUnlock", "guard:inside", "guard:outside", "multi-chunk-message", "counter-near-wrap", "message-abandoned-mid-way", "precancelled-send-draws-no-number", "scenario:forced-overlapping-renewals", "close-during-renewal:stale-number", "gated-request:wire-consecutive"} {
 		if r.Distribution[b] == 0 {
 			r.Unreached = append(r.Unreached, b)
 		}
